@@ -5,14 +5,14 @@ namespace ZVD
 open ZV ZV.Snm
 
 /-- split a row-major flattened matrix into rows of `p` entries -/
-def chunk {α} (p : Nat) : Nat → List α → List (List α)
+def chunkP {α} (p : Nat) : Nat → List α → List (List α)
   | 0, _ => []
-  | n + 1, l => l.take p :: chunk p n (l.drop p)
+  | n + 1, l => l.take p :: chunkP p n (l.drop p)
 
 def mkSRows (p : Nat) (a y pi w v : List Rat) : Except String (List (SRow Rat)) := do
   let n := a.length
   if y.length ≠ n || pi.length ≠ n || w.length ≠ n || v.length ≠ n * p then throw "bad-arg:lengths"
-  let vs := chunk p n v
+  let vs := chunkP p n v
   let rec go : List Rat → List Rat → List Rat → List Rat → List (List Rat) → List (SRow Rat)
     | a :: as, y :: ys, q :: qs, w :: ws, v :: vs => ⟨a, y, q, w, v⟩ :: go as ys qs ws vs
     | _, _, _, _, _ => []
